@@ -30,10 +30,10 @@ const NUMS: [(&str, &str); 22] = [
 ];
 
 /// well-known and look-alike datatype IRIs: every one of them must survive a round trip unchanged
-pub const DATATYPES: [&str; 16] = [
+pub const DATATYPES: [&str; 18] = [
     "http://www.w3.org/1999/02/22-rdf-syntax-ns#PlainLiteral", "http://www.w3.org/1999/02/22-rdf-syntax-ns#HTML", "http://www.w3.org/1999/02/22-rdf-syntax-ns#XMLLiteral",
     "http://www.w3.org/1999/02/22-rdf-syntax-ns#JSONx", "http://www.w3.org/2001/XMLSchema#String", "http://www.w3.org/2001/XMLSchema#strin", "http://www.w3.org/2001/XMLSchema#string2",
-    "http://www.w3.org/2001/XMLSchema#normalizedString", "http://www.w3.org/2001/XMLSchema#anyURI", "http://www.w3.org/2001/XMLSchema#token", "http://www.w3.org/2001/XMLSchema#",
+    "http://www.w3.org/2001/XMLSchema#normalizedString", "http://www.w3.org/2001/XMLSchema#hexstring", "http://www.w3.org/2001/XMLSchema#langstring", "http://www.w3.org/2001/XMLSchema#anyURI", "http://www.w3.org/2001/XMLSchema#token", "http://www.w3.org/2001/XMLSchema#",
     "http://www.w3.org/2001/XMLSchema#dateTime", "http://www.w3.org/2001/XMLSchema#int", "http://www.w3.org/2002/07/owl#real", "http://www.w3.org/2000/01/rdf-schema#Literal", "urn:dt",
 ];
 pub fn rand_object(rng: &mut Rng, nb: usize) -> ST {
